@@ -26,7 +26,7 @@ func (p *parser) handleError(u *Url, errorType errors.ErrorType, failure bool) e
 	if p.opts.reportValidationErrors {
 		u.validationErrors = append(u.validationErrors, e)
 	}
-	if failure || p.opts.failOnValidationError {
+	if failure || (p.opts.failOnValidationError && !u.inSetter) {
 		return e
 	}
 	return nil
@@ -38,7 +38,7 @@ func (p *parser) handleErrorWithDescription(u *Url, errorType errors.ErrorType, 
 	if p.opts.reportValidationErrors {
 		u.validationErrors = append(u.validationErrors, e)
 	}
-	if failure || p.opts.failOnValidationError {
+	if failure || (p.opts.failOnValidationError && !u.inSetter) {
 		return e
 	}
 	return nil
@@ -50,7 +50,7 @@ func (p *parser) handleWrappedError(u *Url, errorType errors.ErrorType, failure 
 	if p.opts.reportValidationErrors {
 		u.validationErrors = append(u.validationErrors, e)
 	}
-	if failure || p.opts.failOnValidationError {
+	if failure || (p.opts.failOnValidationError && !u.inSetter) {
 		return e
 	}
 	return nil
